@@ -118,6 +118,7 @@ impl Registry {
         if let Some(v) = self.canonicalize_exact(name, seen) {
             return Some(v);
         }
+        let full_name = name;
         for &(ref prefix, ref value) in &self.prefixes {
             if let Some(name) = name.strip_prefix(prefix) {
                 if let Some(canonicalized) = self.canonicalize_exact(name, seen) {
@@ -134,7 +135,14 @@ impl Registry {
                             prefix = other;
                         }
                     }
-                    return Some(format!("{}{}", prefix, canonicalized));
+                    let expanded = format!("{}{}", prefix, canonicalized);
+                    // The expanded spelling can be a unit of its own
+                    // (kfoo -> kilofoo with a separate kilofoo
+                    // definition), which is what it would then denote.
+                    if self.lookup_exact(&expanded).is_some() {
+                        return Some(full_name.to_owned());
+                    }
+                    return Some(expanded);
                 }
             }
         }
